@@ -116,6 +116,21 @@ def float_cast_in_range(n, facts):
 
 def index_in_bounds(idx, cont, facts, prog, func):
     """-> (proved?, reason).  idx / cont are expression nodes."""
+    r = _index_in_bounds(idx, cont, facts, prog, func)
+    if r[0] is not True:
+        # the index held in a named, never reassigned local: judge the expression it names
+        e = strip(idx, explicit=True)
+        if e.get('kind') == 'DeclRefExpr':
+            from ..program import single_assignment_locals
+            init = single_assignment_locals(func.node).get((e.get('referencedDecl') or {}).get('id'))
+            if init is not None and strip(init, explicit=True).get('kind') != 'DeclRefExpr':
+                r2 = _index_in_bounds(init, cont, facts, prog, func)
+                if r2[0] is True:
+                    return r2
+    return r
+
+
+def _index_in_bounds(idx, cont, facts, prog, func):
     cp = guards.canon(cont)
     if cp is None:
         return None, 'container expression outside the modelled subset'
